@@ -35,8 +35,43 @@ pub fn capacity_grid<G: AffineRepr + 'static>(shape: &Shape, seed: u64, vals: im
             return out;
         }
     };
-    for cap in 0..=(pad + 1) {
-        let bp = BulletproofGens::<G>::new(cap, 1);
+    // with enough generators a malformed proof (one round too many / too few) is a verification error, not the
+    // insufficient-generators error
+    {
+        use ark_bulletproofs::verif_hooks::InnerProductProof;
+        let (pts, scs, ipp) = proof0.verif_parts();
+        let (l, r, a, b) = ipp.verif_parts();
+        let mut variants = vec![];
+        let (mut l2, mut r2) = (l.to_vec(), r.to_vec());
+        l2.push(pts[0]);
+        r2.push(pts[1]);
+        variants.push(("one round too many", R1CSProof::verif_from_parts(pts, scs, InnerProductProof::verif_from_parts(l2, r2, a, b))));
+        if !l.is_empty() {
+            variants.push(("one round too few", R1CSProof::verif_from_parts(pts, scs, InnerProductProof::verif_from_parts(l[1..].to_vec(), r[1..].to_vec(), a, b))));
+        }
+        for (what, bad) in variants {
+            for cap in [pad, 2 * pad + 1] {
+                let bp = BulletproofGens::<G>::new(cap, 1);
+                rewind_for_verifier(&shr0);
+                let r1 = catch(|| {
+                    let mut vt = new_verifier_transcript(shape);
+                    build_verifier(shape, &shr0, &mut vt).verify(&bad, &pc, &bp)
+                });
+                rewind_for_verifier(&shr0);
+                let r2 = catch(|| {
+                    let mut vt: Transcript = new_verifier_transcript(shape);
+                    let v = build_verifier(shape, &shr0, &mut vt);
+                    let mut rng = rand_chacha::ChaChaRng::seed_from_u64(seed);
+                    batch_verify(&mut rng, vec![(v, &bad)], &pc, &bp)
+                });
+                let fine = |r: &Result<Result<(), R1CSError>, String>| matches!(r, Ok(Err(e)) if !matches!(e, R1CSError::InvalidGeneratorsLength));
+                out.push((format!("a proof with {} and capacity {} >= padded size {}: verify {:?}, batch_verify {:?} (an error other than InvalidGeneratorsLength)", what, cap, pad, r1, r2), fine(&r1) && fine(&r2)));
+            }
+        }
+    }
+    for (cap, parties) in (0..=(pad + 1)).map(|c| (c, 1usize)).chain((0..=(pad + 1)).map(|c| (c, 3usize))) {
+        // (the threshold refers to the per-party capacity: a second and third party's generators do not count)
+        let bp = BulletproofGens::<G>::new(cap, parties);
         let expect_err = cap < pad;
         // prover
         let shr = new_shared::<G>(shape, &Default::default(), vals());
@@ -46,7 +81,7 @@ pub fn capacity_grid<G: AffineRepr + 'static>(shape: &Shape, seed: u64, vals: im
             Ok(Ok(())) => !expect_err,
             _ => false,
         };
-        out.push((format!("prove, capacity {} vs padded size {}: {:?} (expected {})", cap, pad, r, if expect_err { "InvalidGeneratorsLength" } else { "Ok" }), ok));
+        out.push((format!("prove, capacity {} ({} parties) vs padded size {}: {:?} (expected {})", cap, parties, pad, r, if expect_err { "InvalidGeneratorsLength" } else { "Ok" }), ok));
         // verifier
         rewind_for_verifier(&shr0);
         let r = catch(|| {
@@ -58,7 +93,7 @@ pub fn capacity_grid<G: AffineRepr + 'static>(shape: &Shape, seed: u64, vals: im
             Ok(Ok(())) => !expect_err,
             _ => false,
         };
-        out.push((format!("verify, capacity {} vs padded size {}: {:?}", cap, pad, r), ok));
+        out.push((format!("verify, capacity {} ({} parties) vs padded size {}: {:?}", cap, parties, pad, r), ok));
         // batch verifier with one instance
         rewind_for_verifier(&shr0);
         let r = catch(|| {
@@ -72,7 +107,7 @@ pub fn capacity_grid<G: AffineRepr + 'static>(shape: &Shape, seed: u64, vals: im
             Ok(Ok(())) => !expect_err,
             _ => false,
         };
-        out.push((format!("batch_verify, capacity {} vs padded size {}: {:?}", cap, pad, r), ok));
+        out.push((format!("batch_verify, capacity {} ({} parties) vs padded size {}: {:?}", cap, parties, pad, r), ok));
     }
     // generator sets with a history: a smaller request is a no-op, regrowth continues the same chains; the
     // outcome and the proof bytes are those of a freshly built set of the final capacity
